@@ -177,4 +177,17 @@ PROPS = {
         "level_note": "trusted: Lean kernel; harness/check; translator; proto3 conflations are part of the statement (absent goal / counts arrive as 0)",
         "assumptions": ["the four allow-listed spec parts (metric strategies, maxFailedTrialCount, resumePolicy, trial template / collector) are consumed controller-side"],
     },
+    "C17": {
+        "prop_files": ["Katib/Props/C17.lean"],
+        "n": {"quick": 4000, "thorough": 200000},
+        "rule": "suggestions (names, namespaces, labels incl. the reserved katib label keys, three resume policies, early stopping on/off/empty name) x generated katib-config "
+                "suggestion entries (container name, 0-2 extra ports incl. the reserved name/number, custom serviceAccountName, volume mounts incl. suggestion-volume, mount path) "
+                "through the real composer.General on a fake client; Deployment/Service/PVC/RBAC projected on the fields that tie them together; owner references checked Go-side",
+        "trusted": ["sigs.k8s.io/yaml round trip of the generated katib-config", "owner-reference check (SetControllerReference) evaluated Go-side"],
+        "modelled": ["General.DesiredDeployment/DesiredService/DesiredVolume/DesiredRBAC, desiredContainers, util.GetSuggestion*Name, GetAlgorithmEndpoint, SuggestionLabels as Katib.Comp.*"],
+        "level_text": "Lean theorems C17_selector, C17_ports, C17_endpoint, C17_listening, C17_reserved_port_rejected, C17_volume, C17_ns, C17_rbac_partial (default service account) and "
+                      "C17_rbac_counterexample (custom serviceAccountName: known finding) for every suggestion and config; differential run + cross-object coherence oracle",
+        "level_note": "trusted: Lean kernel; harness/check; katib-config parsing (katibconfig.GetSuggestionConfigData) exercised but not modelled",
+        "assumptions": ["labels are compared as sets (Go maps)"],
+    },
 }
